@@ -355,6 +355,39 @@ fn roundtrip_enum_impl(nkeys: usize, name: &str) {
 												}
 											}
 										}
+										// RE-SEEK on one long-lived cursor: seek(from) then seek(to) must land where a fresh seek(to) lands
+										// (small blocks only: versions of one key then span several blocks)
+										if bad.is_none() && block_size == 32 && restart == 1 {
+											let mut targets: Vec<InternalKey> = Vec::new();
+											for k in &universe {
+												for &s in &[10u64, 9, 6, 5, 1] {
+													targets.push(InternalKey::new(k.clone(), s, InternalKeyKind::Set, 0));
+												}
+											}
+											if let Ok(mut it) = t.iter(None) {
+												'pairs: for from in &targets {
+													for to in &targets {
+														let want_idx = entries.iter().position(|(ik, _)| icmp.compare(&ik.encode(), &to.encode()) != Ordering::Less);
+														let r1 = it.seek(&from.encode());
+														let r2 = it.seek(&to.encode());
+														let got = match (r1, r2) {
+															(Ok(_), Ok(true)) => Some(it.key().encoded().to_vec()),
+															(Ok(_), Ok(false)) => None,
+															(Err(e), _) | (_, Err(e)) => {
+																bad = Some(format!("re-seek failed: {e}"));
+																break 'pairs;
+															}
+														};
+														let wantk = want_idx.map(|i| entries[i].0.encode());
+														if got != wantk {
+															bad = Some(format!("one cursor: seek({}@{}) then seek({}@{}) lands on {:?}, the first entry at or after the second target is {:?}", show(&from.user_key), from.seq_num(), show(&to.user_key), to.seq_num(),
+																got.as_ref().map(|g| { let ik = InternalKey::decode(g); format!("{}@{}", show(&ik.user_key), ik.seq_num()) }), want_idx.map(|i| format!("{}@{}", show(&entries[i].0.user_key), entries[i].0.seq_num()))));
+															break 'pairs;
+														}
+													}
+												}
+											}
+										}
 										if bad.is_none() {
 											for k in &universe {
 												for &s in &[10u64, 9, 6, 5, 1] {
